@@ -75,7 +75,11 @@ Definition entry_eqb (a b : slot * bool) : bool := slot_eqb (fst a) (fst b) && b
 Definition incl_b (l1 l2 : list (slot * bool)) : bool :=
   forallb (fun e => existsb (entry_eqb e) l2) l1.
 
-Definition is_last (e : slot * bool) : bool := match fst e with SLast _ _ _ => true | _ => false end.
+(* With the preload of Unlock the same holds for WHICH accounts got loaded into
+   the cache before the failure (the model preloads all of them): the [SAcct]
+   slots are not compared either. *)
+Definition is_last (e : slot * bool) : bool :=
+  match fst e with SLast _ _ _ | SAcct _ _ => true | _ => false end.
 
 (* [a]: observed, [b]: model *)
 Definition snap_eqb (a b : snap) : bool :=
